@@ -11,6 +11,7 @@ CONSTANTS
   FindUnitHoldsRLock = FALSE
   KF_EmptyStatus = TRUE
   KF_CancelOverS = TRUE
+  KF_LiveRunnerFailed = TRUE
 INVARIANTS
   TypeOK
   StageMonotone
